@@ -106,7 +106,7 @@ theorem C17_reader (s : State) (xs : List Txn) (rms : List Path) (k1 k2 : Nat) (
 /-- I/O error while writing: notedownSrc closes the file and removes the temp file (then logx.Fatalf). Wherever that
     happens, the two extra ops change nothing but the temp entry, which is gone afterwards — so everything `C17_atomic`,
     `C17_frame` say about the crash prefix `k` still holds after the error exit. (A failed rename or a failed unlink
-    stops the run AT a crash prefix: the crash theorems apply as they are; the temp file of a failed rename stays.) -/
+    stops the run AT a crash prefix: the crash theorems apply as they are; see `C17_no_temp_after_any_exit` for the temp files.) -/
 theorem C17_write_error_cleanup (s : State) (ops : List Op) (t : Path) :
     (∀ n, n ≠ t → read (exec s (ops ++ [.close, .remove t])) n = read (exec s ops) n) ∧
     (exec s (ops ++ [.close, .remove t])).dir t = none := by
@@ -116,6 +116,62 @@ theorem C17_write_error_cleanup (s : State) (ops : List Op) (t : Path) :
   · intro n hn
     simp [read, upd_other _ _ _ _ hn]
   · simp
+
+/-- after EVERY run that terminates by itself — success, a failed os.CreateTemp, a failed Write (after any number of chunks),
+    a failed os.Rename, a failed os.Remove inside Clean — the directory holds none of the run's temp files: neither those of the
+    completed outputs nor the one of the output that failed -/
+theorem C17_no_temp_after_any_exit (s : State) (xs : List Txn) (rms : List Path) (e : Ending)
+    (hfresh : freshTemps s xs) (he : ∀ t ∈ e.tmp, t ∉ tmps xs) :
+    ∀ t ∈ tmps xs ++ e.tmp, (exec s (selfRun xs rms e)).dir t = none := by
+  intro t ht
+  have hdone : ∀ t ∈ tmps xs, (exec s (txnsOps xs)).dir t = none := by
+    intro t ht; rw [txnsOps_eq_runOps]; exact no_temp_left xs s [] hfresh t ht
+  unfold selfRun
+  rw [exec_append]
+  cases e with
+  | complete k =>
+    simp only [Ending.tmp, List.append_nil] at ht
+    exact exec_removes_dir_none _ _ t (hdone t ht)
+  | createFailed =>
+    simp only [Ending.tmp, List.append_nil] at ht
+    simpa [endOps] using hdone t ht
+  | writeFailed y j =>
+    simp only [Ending.tmp, List.mem_append, List.mem_singleton] at ht
+    have hrw : endOps rms (.writeFailed y j)
+        = (.createTempExcl y.tmp :: ((y.chunks.take j).map .write ++ [.close])) ++ [.remove y.tmp] := by simp [endOps]
+    rcases ht with ht | rfl
+    · have hne : t ≠ y.tmp := fun h => he y.tmp (by simp [Ending.tmp]) (h ▸ ht)
+      rw [dir_onlyAt y.tmp _ _ _ t hne]
+      · exact hdone t ht
+      · intro op hop
+        simp only [endOps, List.mem_cons, List.mem_append, List.mem_map, List.mem_singleton] at hop
+        rcases hop with rfl | ⟨c, _, rfl⟩ | rfl | rfl | h <;> first | trivial | rfl | cases h
+    · rw [hrw]; exact dir_after_remove _ _ _
+  | renameFailed y =>
+    simp only [Ending.tmp, List.mem_append, List.mem_singleton] at ht
+    have hrw : endOps rms (.renameFailed y)
+        = (.createTempExcl y.tmp :: (y.chunks.map .write ++ [.close])) ++ [.remove y.tmp] := by simp [endOps]
+    rcases ht with ht | rfl
+    · have hne : t ≠ y.tmp := fun h => he y.tmp (by simp [Ending.tmp]) (h ▸ ht)
+      rw [dir_onlyAt y.tmp _ _ _ t hne]
+      · exact hdone t ht
+      · intro op hop
+        simp only [endOps, List.mem_cons, List.mem_append, List.mem_map, List.mem_singleton] at hop
+        rcases hop with rfl | ⟨c, _, rfl⟩ | rfl | rfl | h <;> first | trivial | rfl | cases h
+    · rw [hrw]; exact dir_after_remove _ _ _
+
+/-- and a failing step leaves every entry but its own temp path as the completed outputs left it -/
+theorem C17_failed_step_touches_only_temp (s : State) (xs : List Txn) (rms : List Path) (y : Txn) (j : Nat) (n : Path)
+    (hn : n ≠ y.tmp) :
+    (exec s (selfRun xs rms (.writeFailed y j))).dir n = (exec s (txnsOps xs)).dir n ∧
+    (exec s (selfRun xs rms (.renameFailed y))).dir n = (exec s (txnsOps xs)).dir n := by
+  unfold selfRun
+  constructor <;>
+  · rw [exec_append]
+    apply dir_onlyAt y.tmp _ _ _ n hn
+    intro op hop
+    simp only [endOps, List.mem_cons, List.mem_append, List.mem_map, List.mem_singleton] at hop
+    rcases hop with rfl | ⟨c, _, rfl⟩ | rfl | rfl | h <;> first | trivial | rfl | cases h
 
 /-- on normal termination no temporary file is left -/
 theorem C17_no_temp_left (s : State) (xs : List Txn) (rms : List Path) (hfresh : freshTemps s xs) :
@@ -216,7 +272,7 @@ def modelledCalls : List ((String × String × String) × String) :=
     (("main", "notedownSrc", "(*os.File).Write"), "write"),
     (("main", "notedownSrc", "(*os.File).Close"), "close"),
     (("main", "notedownSrc", "os.Rename"), "rename"),
-    (("main", "notedownSrc", "os.Remove"), "remove (temp file, after a failed write: I/O error path)"),
+    (("main", "notedownSrc", "os.Remove"), "remove (temp file, after a failed write or a failed rename: `Ending`)"),
     (("shoot", "Clean", "os.Remove"), "remove") ]
 
 /-- every call of a file-mutating os function in cmd/ and internal/ (regenerated from the source on every run)
